@@ -231,6 +231,20 @@ def c16_scenarios(tier):
                 lines += [hline("hcommit", i, p, acct) for i in ids]
             lines += ["holds %s" % hx(acct), "relations %s" % hx(acct)]
             out.append(("state=%s caller=%r" % (state, caller), lines))
+    # the peer table itself: a name under two ids must be refused wherever the two entries stand (adjacent ids or not, first/last,
+    # among 2..6 peers, same or different ports), tables with distinct names accepted
+    tl = [cluster_line(ids)]
+    for n_ in (2, 3, 4, 6):
+        base_ = ["signer-test%02d:%d" % (q_ + 1, 8881 + q_) for q_ in range(n_)]
+        tl.append("peerscfg " + ",".join(hx(e_) for e_ in base_))
+        for a_ in range(n_):
+            for b_ in range(a_ + 1, n_):
+                for port_ in (None, 9000 + a_):
+                    tab_ = list(base_)
+                    tab_[b_] = tab_[a_].split(":")[0] + ":" + (str(port_) if port_ else tab_[a_].split(":")[1])
+                    tl.append("peerscfg " + ",".join(hx(e_) for e_ in tab_))
+    tl += ["peerscfg " + ",".join(hx(e_) for e_ in x_) for x_ in (["a:1", "b:1"], ["a:1", "A:1"], ["a:1", "a :1"], ["host:8881"], ["a:1", "b:2", "c:3", "b:4", "d:5"])]
+    out.append(("peer-table-validation", tl))
     # peers are honoured
     for caller_id in ids:
         k += 1
